@@ -64,16 +64,46 @@ type subRec struct {
 }
 
 type recCC struct {
-	w        *world
-	prefix   string
-	updates  int
-	last     []string
-	res      resolver.Resolver
-	tainted  bool
-	lateRace bool
+	w         *world
+	prefix    string
+	updates   int
+	invoked   int  // UpdateState calls made
+	inflight  int  // ... of which have not taken effect yet
+	lastInv   int  // invocation number of the call that took effect last
+	overtaken bool // the state in effect comes from a call made BEFORE another call that took effect earlier
+	slow      int  // > 0: calls yield up to that many times (and may take virtual time) before taking effect
+	last      []string
+	res       resolver.Resolver
+	tainted   bool
+	lateRace  bool
 }
 
+// UpdateState models grpc's ccResolverWrapper: the call takes the channel's lock before the
+// state is installed, so a caller can be descheduled (or delayed) between making the call and
+// the state taking effect; calls take effect in the order in which they get past that point.
+// In "slow" runs (tape) a call yields and may take some virtual time before it is recorded.
 func (c *recCC) UpdateState(s resolver.State) error {
+	c.invoked++
+	inv := c.invoked
+	c.inflight++
+	defer func() { c.inflight-- }()
+	if c.slow > 0 {
+		t := c.w.r.Tape
+		for i := t.Intn(c.slow + 1); i > 0; i-- {
+			c.w.r.Yield()
+		}
+		if t.Chance(1, 4) {
+			c.w.r.Sleep(time.Duration(1+t.Intn(20)) * time.Millisecond)
+		}
+	}
+	if inv < c.lastInv {
+		// this call was made before a call that has already taken effect
+		c.overtaken = true
+		c.w.r.Probe("resolver-update-overtaken")
+	} else {
+		c.overtaken = false
+	}
+	c.lastInv = inv
 	c.updates++
 	c.last = c.last[:0]
 	for _, a := range s.Addresses {
@@ -378,6 +408,11 @@ func (w *world) classify(prefix string, excl, lateRace bool, got, required, allo
 // called at quiescence with nothing in flight.
 func (w *world) checkViews(when string) {
 	w.r.Probe("oracle")
+	// UpdateState calls that are still on their way (slow runs) take effect first
+	for i := 0; w.cc != nil && w.cc.inflight > 0 && i < 200; i++ {
+		w.r.Sleep(5 * time.Millisecond)
+		w.r.Quiesce()
+	}
 	for _, s := range w.subs {
 		if !s.joined || s.tainted {
 			continue
@@ -413,6 +448,11 @@ func (w *world) checkViews(when string) {
 				cls := w.classify(c.prefix, false, c.lateRace, got, req, exp)
 				if cls == "view-mismatch" || cls == "stale-value" || cls == "missing-value" {
 					cls = "resolver-" + cls
+					if c.overtaken {
+						// two update() calls of the resolver overlapped: the one that read the
+						// subscriber's values first installed its state last
+						cls = "resolver-stale-state-installed-by-overtaken-update"
+					}
 				}
 				w.fail(cls, "%s: resolver's last UpdateState has %v, live registrations under %s give %v (%d updates); history: %s",
 					when, sorted(got), c.prefix, sorted(exp), c.updates, w.history())
@@ -781,6 +821,9 @@ func discovScenario(r *simrt.Run, tier string) {
 	}
 	if useResolver {
 		w.cc = &recCC{w: w, prefix: prefixes[0]}
+		if t.Chance(1, 2) {
+			w.cc.slow = 1 + t.Intn(3)
+		}
 		if !started(r.Go("build-resolver", func() {
 			b := resolver.Get(scheme)
 			if b == nil {
